@@ -10,6 +10,9 @@ import (
 	"strconv"
 	"sync"
 	"testing"
+	"time"
+
+	"pgregory.net/rapid"
 )
 
 // Recorder collects per-run evidence and the (shrunk) violation of one
@@ -322,4 +325,26 @@ func headStr(s string, n int) string {
 		return s[:n]
 	}
 	return s
+}
+
+// checkBudget is rapid.Check with a soft deadline: rapid stops generating cases
+// only when less than five average case durations are left before the test
+// binary's own time-out, which a single long case (a few 2 s sleeps of the
+// product's rpc client are enough) overruns - the binary then dies with "test timed
+// out" and the shard counts as broken. Past VERIF_SOFT_DEADLINE_S seconds (set by
+// ./check, some 25 s before the time-out) the remaining cases return at once.
+func checkBudget(t *testing.T, prop func(*rapid.T)) {
+	rapid.Check(t, func(rt *rapid.T) {
+		if pastSoftDeadline() {
+			return
+		}
+		prop(rt)
+	})
+}
+
+var processStart = time.Now()
+
+func pastSoftDeadline() bool {
+	s := envInt("VERIF_SOFT_DEADLINE_S", 0)
+	return s > 0 && time.Since(processStart) > time.Duration(s)*time.Second
 }
